@@ -97,6 +97,8 @@ def run(ctx):
     n = 250 if ctx.thorough() else 45
     if os.path.exists(os.path.join(core.COQ, "Props", "C04.v")):
         core.check_props(ctx, PROPS)
+        # tamper evidence rests on WHEN in_toto_run records: the order monitor on its regenerated skeleton (shared with C11)
+        core.run_ties(ctx, "Tie/C11.v", gen_files=("Skel.v",))
     owner = hk.sslib_key("ed25519", 5)
     viol = 0
     vreqs, expect, meta = [], [], []
